@@ -637,6 +637,27 @@ impl Sim for C20 {
       }
       tasks.push(Value::Array(calls));
     }
+    // inputs are unique per call so far; some executions repeat calls - the same (invocable, input) again in
+    // the same task and in other tasks - so that state keyed by the input is met again by its owner and
+    // by others at the same time
+    if rng.chance(1, 3) {
+      let all: Vec<Value> = tasks.iter().flat_map(|t| t.as_array().cloned().unwrap_or_default()).collect();
+      for t in tasks.iter_mut() {
+        if let Some(calls) = t.as_array_mut() {
+          for c in calls.iter_mut() {
+            if rng.chance(1, 2) {
+              *c = rng.pick(&all).clone();
+            }
+          }
+          if rng.chance(1, 2) && !calls.is_empty() && calls.len() < 8 {
+            // the same call twice in a row
+            let again = calls[rng.index(calls.len())].clone();
+            calls.push(again.clone());
+            calls.push(again);
+          }
+        }
+      }
+    }
     let kind = match rng.index(8) {
       0..=2 => json!({"kind": "random"}),
       3..=6 => json!({"kind": "pct", "depth": 1 + rng.index(5)}),
